@@ -17,3 +17,5 @@ def run(prog, rep):
     from ..rules import r_close as _rc10
     _rc10.run_hid_owner(prog, rep)
     r_ver.run_width(prog, rep)
+    from ..rules import r_key as _rkga
+    _rkga.run_getattr(prog, rep)
